@@ -383,7 +383,7 @@ func exprKeyD(v ssa.Value, d int) string {
 	case *ssa.Lookup:
 		return exprKeyD(v.X, d+1) + "[" + exprKeyD(v.Index, d+1) + "]"
 	case *ssa.Slice:
-		if a, ok := v.X.(*ssa.Alloc); ok && a.Comment == "varargs" {
+		if a, ok := v.X.(*ssa.Alloc); ok && (a.Comment == "varargs" || a.Comment == "slicelit") && v.Low == nil && v.High == nil {
 			// variadic argument list: render the stored elements in order
 			elems := map[int64]string{}
 			max := int64(-1)
@@ -469,6 +469,36 @@ func deref(t types.Type) types.Type {
 		return p.Elem()
 	}
 	return t
+}
+
+// foldInt evaluates integer expressions built from constants with | & + (go/ssa does not fold across statements).
+func foldInt(v ssa.Value) (int64, bool) {
+	if n, ok := constInt(v); ok {
+		return n, true
+	}
+	switch x := v.(type) {
+	case *ssa.BinOp:
+		a, ok1 := foldInt(x.X)
+		b, ok2 := foldInt(x.Y)
+		if !ok1 || !ok2 {
+			return 0, false
+		}
+		switch x.Op {
+		case token.OR:
+			return a | b, true
+		case token.AND:
+			return a & b, true
+		case token.ADD:
+			return a + b, true
+		case token.SHL:
+			return a << uint(b), true
+		}
+	case *ssa.Convert:
+		return foldInt(x.X)
+	case *ssa.ChangeType:
+		return foldInt(x.X)
+	}
+	return 0, false
 }
 
 // constInt returns the integer value of a constant SSA value.
